@@ -27,8 +27,12 @@
 (* Values are identified by how they were passed: "p1","p2",.. (i-th       *)
 (* positional), a keyword's value by the keyword's name, "D" = the default *)
 (* of an unpassed parameter (which VIOLATES the annotation, so a wrapper   *)
-(* that checks defaults is visible).  Every annotation behaves like `int`; *)
-(* a tag "g" / "b" says whether the value satisfies it.                    *)
+(* that checks defaults is visible).  Every annotation behaves like `int`  *)
+(* (it rejects None).  A tag says what the value is:  "g" an ordinary good *)
+(* value, "b" an ordinary bad one, and the Specials  "n" = the object None *)
+(* (bad), "z" = a falsy bad value other than None, "o" = a falsy GOOD      *)
+(* value (the int 0): a wrapper that takes None or falsiness for "not      *)
+(* passed" skips a check it owes.                                          *)
 (*                                                                         *)
 (* Mode "check": the state machine below is explored action by action.     *)
 (* Mode "emit" : the state is the signature only; one JSON row per         *)
@@ -45,6 +49,9 @@ CONSTANTS MaxPosOnly, MaxFlex, MaxKwOnly,  \* parameters of each named kind (var
           MaxSurplus,   \* positional values beyond the number of positional parameters
           MaxKw,        \* keywords per call
           MaxBad,       \* values tagged "b" per call
+          Specials,     \* subset of {"n", "z", "o"}: at most one special value per call, and it is the
+                        \*   only non-"g" value of that call (passed positionally or by keyword, hence also
+                        \*   into star-args / star-star-kw)
           Extras,       \* keyword names that no parameter has
           VarNames,     \* TRUE: the names of *args / **kw themselves are offered as keywords
           Mode,         \* "check" | "emit"
@@ -52,7 +59,7 @@ CONSTANTS MaxPosOnly, MaxFlex, MaxKwOnly,  \* parameters of each named kind (var
           ShardKw,      \*   (pos-only + flexible) and this many keyword-only parameters; 99 = any
           ShardMod, ShardRem,  \* ... and SigCode(sig) % ShardMod = ShardRem  (splits big shards further)
           Mutant        \* "none" | "index_off" | "kwable_posonly" | "slice_early" | "check_defaults"
-                        \* | "call_twice"
+                        \* | "call_twice" | "none_unpassed"
 
 PON == <<"a1", "a2", "a3">>          \* positional-only names
 FLN == <<"b1", "b2", "b3">>          \* flexible names
@@ -61,7 +68,8 @@ VPN == "args"
 VKN == "kw"
 PV  == <<"p1", "p2", "p3", "p4", "p5", "p6", "p7", "p8", "p9">>   \* ids of positional values
 NameOrder == PON \o FLN \o KWN \o <<VPN, VKN, "x1", "x2", "x3">>   \* canonical order of keyword names
-Tags == {"g", "b"}
+Tags == {"g", "b"}                    \* the tags combined freely (up to MaxBad "b" per call)
+IsBad(t) == t \in {"b", "n", "z"}     \* violates the annotation
 Rank(k) == CASE k = "posonly" -> 1 [] k = "flex" -> 2 [] k = "varpos" -> 3 [] k = "kwonly" -> 4 [] k = "varkw" -> 5
 
 Min(a, b) == IF a < b THEN a ELSE b
@@ -98,9 +106,12 @@ KwPool(sig) == NamesOf(sig, {"posonly", "flex", "kwonly"}) \cup Extras
                \cup (IF VarNames THEN NamesOf(sig, {"varpos", "varkw"}) ELSE {})
 NBad(c) == Cardinality({ i \in DOMAIN c.pos : c.pos[i] = "b" }) + Cardinality({ n \in DOMAIN c.kw : c.kw[n] = "b" })
 Calls(sig) ==
-  LET ks == { K \in SUBSET KwPool(sig) : Cardinality(K) <= MaxKw } IN
-  { c \in UNION { { [pos |-> p, kw |-> k] : p \in [1..n -> Tags], k \in UNION { [K -> Tags] : K \in ks } }
-                  : n \in 0..(NPos(sig) + MaxSurplus) } : NBad(c) <= MaxBad }
+  LET ks   == { K \in SUBSET KwPool(sig) : Cardinality(K) <= MaxKw }
+      base == { c \in UNION { { [pos |-> p, kw |-> k] : p \in [1..n -> Tags], k \in UNION { [K -> Tags] : K \in ks } }
+                              : n \in 0..(NPos(sig) + MaxSurplus) } : NBad(c) <= MaxBad }
+      good == { c \in base : NBad(c) = 0 }
+  IN base \cup UNION { { [c EXCEPT !.pos[i] = t] : i \in DOMAIN c.pos, t \in Specials } : c \in good }
+          \cup UNION { { [c EXCEPT !.kw[nm] = t] : nm \in DOMAIN c.kw, t \in Specials } : c \in good }
 
 PosIdx(v) == CHOOSE i \in DOMAIN PV : PV[i] = v
 TagOf(c, v) == IF v = "D" THEN "b"                       \* defaults violate their annotation
@@ -148,7 +159,7 @@ ExpectedF(F, B) ==
        \cup (IF VPN \in F.ann THEN { <<VPN, B.star[j]>> : j \in DOMAIN B.star } ELSE {})
        \cup (IF VKN \in F.ann THEN { <<VKN, nm>> : nm \in B.kw } ELSE {})
 Expected(sig, B) == ExpectedF(Facts(sig), B)
-BadPairs(c, S) == { e \in S : TagOf(c, e[2]) = "b" }
+BadPairs(c, S) == { e \in S : IsBad(TagOf(c, e[2])) }
 \* the first parameter (signature order) one of whose bound values is bad
 FirstBadF(F, c, E) ==
   LET bad == { e[1] : e \in BadPairs(c, E) }
@@ -193,12 +204,15 @@ Advance(x, w) == IF w.i < Len(x.G) THEN [w EXCEPT !.i = @ + 1] ELSE [w EXCEPT !.
 \* "if not isinstance(pith, int): raise" over the values localised by one snippet, in order
 CheckVals(x, w, vals) ==
   LET nm   == x.G[w.i].name
-      bads == { j \in DOMAIN vals : TagOf(x.c, vals[j]) = "b" }
+      bads == { j \in DOMAIN vals : IsBad(TagOf(x.c, vals[j])) }
   IN IF bads = {}
      THEN Advance(x, [w EXCEPT !.checked = @ \o [j \in DOMAIN vals |-> <<nm, vals[j]>>]])
      ELSE LET j0 == CHOOSE j \in bads : \A k \in bads : j <= k
           IN [w EXCEPT !.checked = @ \o [j \in 1..j0 |-> <<nm, vals[j]>>], !.pc = "raise"]
 Unpassed(s) == IF Mutant = "check_defaults" /\ s.dflt THEN <<"D">> ELSE <<>>    \* the sentinel: nothing to check
+\* kwargs.get(name, SENTINEL): the value passed under that keyword.  (Mutant "none_unpassed": the lookup
+\* is kwargs.get(name) and None stands for "not passed", so an explicitly passed None is never checked.)
+ByKeyword(x, s) == IF Mutant = "none_unpassed" /\ x.c.kw[s.name] = "n" THEN Unpassed(s) ELSE <<s.name>>
 
 StepArgsLen(x, w) == [w EXCEPT !.alen = x.n, !.pc = "check"]
 \* if __beartype_args_len > idx: pith = args[idx]
@@ -206,14 +220,14 @@ StepPosOnly(x, w) == LET s == x.G[w.i] IN
   CheckVals(x, w, IF w.alen > s.idx THEN <<PV[s.idx + 1]>> ELSE <<>>)
 \* pith = args[idx] if __beartype_args_len > idx else kwargs.get(name, SENTINEL)
 StepFlex(x, w) == LET s == x.G[w.i] IN
-  CheckVals(x, w, IF w.alen > s.idx THEN <<PV[s.idx + 1]>> ELSE IF s.name \in x.K THEN <<s.name>> ELSE Unpassed(s))
+  CheckVals(x, w, IF w.alen > s.idx THEN <<PV[s.idx + 1]>> ELSE IF s.name \in x.K THEN ByKeyword(x, s) ELSE Unpassed(s))
 \* for pith in args[idx:]
 StepVarPos(x, w) == LET s == x.G[w.i]
                         from == IF Mutant = "slice_early" /\ s.idx > 0 THEN s.idx - 1 ELSE s.idx IN
   CheckVals(x, w, IF x.n > from THEN [j \in 1..(x.n - from) |-> PV[from + j]] ELSE <<>>)
 \* pith = kwargs.get(name, SENTINEL)
 StepKwOnly(x, w) == LET s == x.G[w.i] IN
-  CheckVals(x, w, IF s.name \in x.K THEN <<s.name>> ELSE Unpassed(s))
+  CheckVals(x, w, IF s.name \in x.K THEN ByKeyword(x, s) ELSE Unpassed(s))
 \* for pith in (kwargs[k] for k in kwargs.keys() - keywordable); the iteration order of that
 \* set is unspecified in Python: a canonical order is used here (unobservable: same parameter)
 StepVarKw(x, w) ==
